@@ -2,6 +2,7 @@
 From Coq Require Import ZArith List Bool String.
 From VD Require Import Base.Bytes Base.Text Base.Sexp Base.PixFmt Base.Struct.
 From VD Require Import Model.ClientMsgs Model.Keys Model.Pointer Model.ClientOps Spec.C2S.
+From VD Require Import Spec.DES Model.Auth.
 From VD Require Import Model.Server Extract.DispatchRfb Extract.DispatchCmd Extract.DispatchProxy Extract.DispatchReplay.
 Import ListNotations.
 Open Scope Z_scope.
@@ -79,6 +80,27 @@ Definition d_parse_server (a : sexp) : sexp :=
   | _ => sErr
   end.
 
+(* "des": [key; data; decrypt?] -> DES-ECB of the FIPS 46-3 spec *)
+Definition d_des (a : sexp) : sexp :=
+  match as_list a with
+  | [k; d; I dec] => sZs (if dec =? 0 then des_ecb_encrypt (as_Zs k) (as_Zs d) else des_ecb_decrypt (as_Zs k) (as_Zs d))
+  | _ => sErr
+  end.
+
+(* "vnc_key": password code points -> key bytes, () when not ASCII *)
+Definition d_vnc_key (a : sexp) : sexp := sOpt sZs (vnc_key (as_Zs a)).
+
+(* "ard_parts": [user; pw; urandom; g; keylen; modulus; serverkey] -> [plain; shared; key] *)
+Definition d_ard_parts (a : sexp) : sexp :=
+  match as_list a with
+  | [u; p; r; I g; I kl; m; sk] =>
+      match ard_parts (as_Zs u) (as_Zs p) (as_Zs r) g kl (as_Zs m) (as_Zs sk) with
+      | Some (plain, shared, key) => L [sZs plain; sZs shared; sZs key]
+      | None => L []
+      end
+  | _ => sErr
+  end.
+
 Definition name_is (n : list Z) (s : string) : bool := text_eqb n (text_of_ascii s).
 
 Definition dispatch (name : list Z) (a : sexp) : sexp :=
@@ -93,4 +115,7 @@ Definition dispatch (name : list Z) (a : sexp) : sexp :=
   else if name_is name "quote" then d_quote a
   else if name_is name "proxy_run" then d_proxy_run a
   else if name_is name "c18_roundtrip" then d_c18_roundtrip a
+  else if name_is name "des" then d_des a
+  else if name_is name "vnc_key" then d_vnc_key a
+  else if name_is name "ard_parts" then d_ard_parts a
   else sErr.
